@@ -337,13 +337,14 @@ func c04scriptedServer(r *Run, cell c04cell) {
 	r.OnCleanup(func() { ln.Close() })
 	var sinkGot bytes.Buffer
 	streamsAccepted := 0
+	askedTLS := false
 	go func() {
 		for {
 			conn, err := ln.Accept()
 			if err != nil {
 				return
 			}
-			go scriptedServerConn(r, conn, cell.Deviation, &sinkGot, &streamsAccepted)
+			go scriptedServerConn(r, conn, cell.Deviation, &sinkGot, &streamsAccepted, &askedTLS)
 		}
 	}()
 	cfg := WorldCfg{Carrier: cell.Carrier, NoServer: true, ClientSecure: cell.Secure, ClientInsecure: true}
@@ -402,6 +403,17 @@ func c04scriptedServer(r *Run, cell c04cell) {
 		}
 		r.Count("deviation_refused")
 	} else {
+		// Without -s a plaintext session is acceptable only if no upgrade was agreed. Once the client has
+		// asked for the StartTLS upgrade that was on offer, the session is upgraded or it does not exist:
+		// no application byte may then travel in clear, whatever the server answers.
+		r.Info["client_asked_for_starttls"] = askedTLS
+		if askedTLS && (inClear || streamsAccepted > 0) {
+			r.FailSig("plaintext-after-starttls-was-requested", sig, "StartTLS was on offer and the client asked for it; the scripted server deviated by %q; the client nevertheless opened %d logical stream(s) on the plaintext carrier, application payload in clear=%v", cell.Deviation, streamsAccepted, inClear)
+			return
+		}
+		if askedTLS {
+			r.Count("starttls_requested_and_not_downgraded")
+		}
 		// control group: without -s a server that honestly stays plaintext is acceptable, and the observer must see the data
 		if cell.Deviation == "honest-plaintext" || cell.Deviation == "capability-omitted" {
 			if !inClear {
@@ -426,7 +438,7 @@ func readBlock(conn net.Conn) string {
 	return string(b)
 }
 
-func scriptedServerConn(r *Run, conn net.Conn, dev string, sink *bytes.Buffer, streams *int) {
+func scriptedServerConn(r *Run, conn net.Conn, dev string, sink *bytes.Buffer, streams *int, askedTLS *bool) {
 	defer func() { recover() }()
 	ok200 := "HTTP/1.1 200 OK\r\nServer: socketace/scripted\r\nProtocol-Version: v2.0.0\r\n"
 	ok101 := "HTTP/1.1 101 Switching Protocols\r\nConnection: upgrade\r\nUpgrade: socketace/v2.0.0\r\nProtocol-Version: v2.0.0\r\nServer: socketace/scripted\r\n\r\n"
@@ -444,7 +456,9 @@ func scriptedServerConn(r *Run, conn net.Conn, dev string, sink *bytes.Buffer, s
 	default:
 		conn.Write([]byte(ok200 + "Capabilities: StartTLS\r\n\r\n"))
 	}
-	readBlock(conn)
+	if up := readBlock(conn); strings.Contains(strings.ToLower(up), "security: starttls") {
+		*askedTLS = true // the client asked for the StartTLS upgrade (it was on offer)
+	}
 	mux := false
 	switch dev {
 	case "upgrade-200":
